@@ -138,7 +138,7 @@ class WorldJob(object):
     # ------------------------------------------------------------------------------- one execution
     def fresh_tree(self):
         world.rmtree(self.root)
-        world.build_tree(self.root, self.spec['tree'])
+        world.build_tree(self.root, self.spec['tree'], self.spec.get('uniform_mtime'))
 
     def run_once(self, env, faults, rebuild=True, real_crash=False):
         if rebuild:
